@@ -40,7 +40,7 @@ def run_one(patch, prop, with_tests=False, extra_props=()):
             out["status"] = "patch-failed"
             out["detail"] = (p.stdout + p.stderr)[-400:]
             return out
-        env = dict(os.environ, VERIF_REPO=dst)
+        env = dict(os.environ, VERIF_REPO=dst, VERIF_EVIDENCE_DIR=os.path.join(d, "evidence"))
         env.setdefault("VERIF_SEED", "0")
         if with_tests:
             t = subprocess.run(["/venv/bin/python", "-m", "pytest", "-q", "-x", "-p", "no:cacheprovider",
@@ -80,22 +80,18 @@ def main(args, tier):
             items.append((patch, prop, ()))
     if sel:
         items = [it for it in items if any(os.path.basename(os.path.dirname(it[0]) if seeded else it[0]).startswith(s) or it[1] == s for s in sel)]
-    # the evidence files of the real tree must not be clobbered by mutant runs
-    ev_dir = os.path.join(VERIF, "evidence")
-    backup = tempfile.mkdtemp(prefix="verif-evidence-")
-    for f in glob.glob(os.path.join(ev_dir, "*.json")):
-        shutil.copy(f, backup)
+    # mutant runs write their evidence into the scratch directory (VERIF_EVIDENCE_DIR), never into evidence/
+    jobs = 1
+    for a in args:
+        if a.startswith("--jobs="):
+            jobs = int(a.split("=", 1)[1])
     missed = 0
-    try:
-        for patch, prop, extra in items:
-            r = run_one(patch, prop, with_tests, extra)
+    from concurrent.futures import ThreadPoolExecutor
+    with ThreadPoolExecutor(max_workers=jobs) as ex:
+        for r in ex.map(lambda it: run_one(it[0], it[1], with_tests, it[2]), items):
             print(json.dumps(r, ensure_ascii=False))
             sys.stdout.flush()
             if r["status"] != "caught":
                 missed += 1
-    finally:
-        for f in glob.glob(os.path.join(backup, "*.json")):
-            shutil.copy(f, ev_dir)
-        shutil.rmtree(backup, ignore_errors=True)
     print(f"selftest: {len(items)} mutants, {missed} not caught")
     return 1 if missed else 0
